@@ -20,7 +20,13 @@ Persistence part
       (right / left product, plain argument) x value class, TLC enumerates the sequences of memory layouts (1-D,
       column, C / Fortran order, transposed view, strided and reversed slices, read-only, float32) in which the SAME
       value is handed over; the argument, every other layout and the operator are digested before / after every call
-      and Trace_Persist validates the frame condition and that the result does not depend on the layout."""
+      and Trace_Persist validates the frame condition and that the result does not depend on the layout; per case one
+      more behaviour repeats a call after an unrelated call on the same operator object.
+  (6) operator algebra (mode "algebra"): every operation of the algebra (neg, sub, scalar mul / div on both sides with
+      positive / negative / integer / complex / zero scalars, add, matmul, kron, kronsum, block_diag, .T, .H, slicing,
+      declaration wrappers, application) on PSD / SelfAdjoint / Unitary / Stiefel / undeclared operands; the FULL
+      observable state of every pre-existing operator (matrix, annotations, leaves, shape, dtype, __dict__
+      recursively) is digested after every call of every mode and validated by Trace_Persist (den / ann / lea / hid)."""
 import hashlib
 import json
 import os
@@ -71,6 +77,20 @@ ASSUMPTIONS = [
     "means equal within that tolerance; every case is one chain executed on one live operator (after a mutation the "
     "chain goes on with the mutated arrays); quick replays, per case, sequences of 2 layouts in which every layout "
     "comes first exactly once (thorough: 3)",
+    "the full observable state of an operator = dense matrix, annotations, flatten() leaves, shape, dtype and its "
+    "__dict__ digested recursively (arrays by bytes; nested operators, algorithm objects, containers recursively; "
+    "callables / classes / modules by name).  The attribute `info` of IterativeOperatorWInfo is skipped: it is the "
+    "documented diagnostics channel of the lazy inverse (iteration log with wall-clock times), rewritten by every "
+    "application; whether anything an application leaves behind influences later results is decided behaviourally "
+    "instead: the same call repeated on ONE operator object (other layouts of the argument, and after an unrelated "
+    "call with another value of the same shape and dtype) must return the same result (sweep paths inv_cg_op / "
+    "inv_gmres_op use 2 iterations, so the iterate - not the limit - is compared)",
+    "operator algebra (mode 'algebra'): two operands X (Dense) and Y (Diagonal / Dense) per declaration PSD / "
+    "SelfAdjoint / Unitary / Stiefel / none, built from matrices that have the declared property; the result of an "
+    "operation is a value (kind, shape, dtype, annotations, matrix) and is dropped; quick replays, per declaration, "
+    "sequences of 2 operations in which every operation comes first exactly once (thorough: 3); a chain goes on "
+    "with the operands as they are after a detected change",
+    "the persistence part runs in its own process beside the registry part (they share nothing)",
 ]
 
 
